@@ -1,1 +1,623 @@
-// placeholder
+//! RefGraph — reference semantics of a solution-set check (DESIGN §3.4), written from the statements
+//! of C01 and C03. Node programs are executed on the real VM (whose correctness is decided separately,
+//! C05–C12); everything about graphs, passes, deferral, overlays and verdicts is independent of
+//! `crates/check`.
+
+use crate::doubles::{next_key, Addr, MapSpec, ViewImpl, MATERIALISE_CAP};
+use crate::model::codec;
+use crate::model::ops::MOp;
+use crate::model::vm::MSolution;
+use essential_types::{ContentAddress, Key, Word};
+use essential_vm::{Access, GasLimit, Memory, Stack, StateRead, StateReads, Vm};
+use serde::{Deserialize, Serialize};
+use std::collections::{BTreeMap, BTreeSet};
+use std::sync::Arc;
+
+pub const LEAF: u16 = u16::MAX;
+
+#[derive(Clone, Debug, PartialEq, Eq, Hash, Serialize, Deserialize)]
+pub struct NodeSpec {
+    pub edge_start: u16,
+    /// Index into the case's program pool.
+    pub prog: usize,
+}
+
+#[derive(Clone, Debug, Default, PartialEq, Eq, Hash, Serialize, Deserialize)]
+pub struct PredSpec {
+    pub nodes: Vec<NodeSpec>,
+    pub edges: Vec<u16>,
+}
+
+#[derive(Clone, Debug, PartialEq, Eq, Hash, Serialize, Deserialize)]
+pub struct SolSpec {
+    /// Index into the case's predicate list.
+    pub pred: usize,
+    pub contract: Addr,
+    pub data: Vec<Vec<i64>>,
+    pub mutations: Vec<(Vec<i64>, Vec<i64>)>,
+}
+
+#[derive(Clone, Debug, PartialEq, Eq, Hash, Serialize, Deserialize)]
+pub struct GraphCase {
+    pub programs: Vec<Vec<MOp>>,
+    pub predicates: Vec<PredSpec>,
+    pub solutions: Vec<SolSpec>,
+    pub pre_state: MapSpec,
+    pub collect_all: bool,
+    /// 0 = two-pass entry point, 1 = check_set_predicates twice over a shared cache,
+    /// 2 = check_and_compute_solution_set twice over a shared cache.
+    pub mode: u8,
+}
+
+/// Edge slice of every node by the documented rule of `Predicate::node_edges`.
+/// Err(node) = the slice of that node is out of range (malformed edge list).
+pub fn edge_slices(p: &PredSpec) -> Result<Vec<Vec<u16>>, usize> {
+    let mut out = Vec::with_capacity(p.nodes.len());
+    for (i, n) in p.nodes.iter().enumerate() {
+        if n.edge_start == LEAF {
+            out.push(vec![]);
+            continue;
+        }
+        let start = n.edge_start as usize;
+        let end = match p.nodes.get(i + 1) {
+            Some(next) if next.edge_start != LEAF => next.edge_start as usize,
+            _ => p.edges.len(),
+        };
+        if start > end || end > p.edges.len() {
+            return Err(i);
+        }
+        out.push(p.edges[start..end].to_vec());
+    }
+    Ok(out)
+}
+
+#[derive(Clone, Debug)]
+pub struct Analysis {
+    pub children: Vec<Vec<u16>>,
+    /// Parents in ascending node order, one entry per edge.
+    pub parents: Vec<Vec<u16>>,
+    /// A topological order (parents first); None if the graph has a cycle.
+    pub topo: Option<Vec<u16>>,
+    /// Some edge points at a node index >= node count.
+    pub dangling: bool,
+    pub leaf: Vec<bool>,
+    /// Longest-path level of each node (for shape statistics).
+    pub level: Vec<usize>,
+}
+
+pub fn analyse(p: &PredSpec) -> Result<Analysis, usize> {
+    let children = edge_slices(p)?;
+    let n = p.nodes.len();
+    let mut parents: Vec<Vec<u16>> = vec![vec![]; n];
+    let mut dangling = false;
+    for (i, cs) in children.iter().enumerate() {
+        for c in cs {
+            if (*c as usize) < n {
+                parents[*c as usize].push(i as u16);
+            } else {
+                dangling = true;
+            }
+        }
+    }
+    // Kahn
+    let mut indeg: Vec<usize> = parents.iter().map(|p| p.len()).collect();
+    let mut ready: BTreeSet<u16> = (0..n as u16).filter(|i| indeg[*i as usize] == 0).collect();
+    let mut topo = Vec::with_capacity(n);
+    let mut level = vec![0usize; n];
+    while let Some(&x) = ready.iter().next() {
+        ready.remove(&x);
+        topo.push(x);
+        for c in &children[x as usize] {
+            let c = *c as usize;
+            if c < n {
+                level[c] = level[c].max(level[x as usize] + 1);
+                indeg[c] -= 1;
+                if indeg[c] == 0 {
+                    ready.insert(c as u16);
+                }
+            }
+        }
+    }
+    let leaf = children.iter().map(|c| c.is_empty()).collect();
+    Ok(Analysis {
+        children,
+        parents,
+        topo: if topo.len() == n { Some(topo) } else { None },
+        dangling,
+        leaf,
+        level,
+    })
+}
+
+pub fn has_post_read(prog: &[MOp]) -> bool {
+    prog.iter().any(|o| matches!(o, MOp::PKRNG | MOp::PKREX))
+}
+
+/// Deferred set: post-reading nodes and all their descendants (true transitive closure).
+pub fn deferred_set(a: &Analysis, post_reader: &[bool]) -> Vec<bool> {
+    let n = post_reader.len();
+    let mut d = vec![false; n];
+    let mut stack: Vec<usize> = (0..n).filter(|i| post_reader[*i]).collect();
+    while let Some(x) = stack.pop() {
+        if d[x] {
+            continue;
+        }
+        d[x] = true;
+        for c in &a.children[x] {
+            if (*c as usize) < n {
+                stack.push(*c as usize);
+            }
+        }
+    }
+    d
+}
+
+// ------------------------------------------------------------------------------------------
+// State views used for reference evaluation (non recording).
+
+pub type Overlay = BTreeMap<(Addr, Vec<i64>), Vec<i64>>;
+
+pub type ReadLog = Arc<std::sync::Mutex<Vec<(Addr, Vec<i64>, usize)>>>;
+
+#[derive(Clone)]
+pub enum RefView {
+    Pre(Arc<ViewImpl>),
+    /// pre-state, overlay, and a log of the post-state requests made during reference evaluation
+    Post(Arc<ViewImpl>, Arc<Overlay>, ReadLog),
+}
+
+#[derive(Debug)]
+pub struct RefStErr(pub String);
+impl std::fmt::Display for RefStErr {
+    fn fmt(&self, f: &mut std::fmt::Formatter<'_>) -> std::fmt::Result {
+        write!(f, "{}", self.0)
+    }
+}
+
+/// Post-state as C03 states it: for each key of the range the proposed value, otherwise the pre-state value.
+pub fn overlay_read(pre: &ViewImpl, overlay: &Overlay, contract: &Addr, key: &[i64], count: usize) -> Result<Vec<Vec<i64>>, String> {
+    let mut out = Vec::new();
+    let mut k = key.to_vec();
+    for _ in 0..count.min(MATERIALISE_CAP) {
+        match overlay.get(&(*contract, k.clone())) {
+            Some(v) => out.push(v.clone()),
+            None => {
+                let mut v = pre.read(contract, &k, 1).map_err(|e| e.0)?;
+                out.push(v.pop().unwrap_or_default());
+            }
+        }
+        match next_key(k) {
+            Some(n) => k = n,
+            None => break,
+        }
+    }
+    Ok(out)
+}
+
+impl StateRead for RefView {
+    type Error = RefStErr;
+    fn key_range(&self, c: ContentAddress, key: Key, n: usize) -> Result<Vec<Vec<Word>>, RefStErr> {
+        match self {
+            RefView::Pre(p) => p.read(&c.0, &key, n).map_err(|e| RefStErr(e.0)),
+            RefView::Post(p, o, log) => {
+                log.lock().unwrap().push((c.0, key.clone(), n));
+                overlay_read(p, o, &c.0, &key, n).map_err(RefStErr)
+            }
+        }
+    }
+}
+
+#[derive(Clone)]
+pub struct RefViews {
+    pub pre: RefView,
+    pub post: RefView,
+}
+impl StateReads for RefViews {
+    type Error = RefStErr;
+    type Pre = RefView;
+    type Post = RefView;
+    fn pre(&self) -> &RefView {
+        &self.pre
+    }
+    fn post(&self) -> &RefView {
+        &self.post
+    }
+}
+
+// ------------------------------------------------------------------------------------------
+// Reference evaluation.
+
+#[derive(Clone, Debug, PartialEq, Eq)]
+pub enum SolFail {
+    /// Cyclic graph or malformed edge list: rejected, nothing evaluated.
+    InvalidGraph,
+    /// Root-cause failures (nodes failing although all their ancestors succeeded) and the nodes that were
+    /// not evaluated by the reference because an ancestor failed.
+    Programs { root: BTreeSet<u16>, downstream: BTreeSet<u16> },
+    Unsatisfied(BTreeSet<u16>),
+}
+
+#[derive(Clone, Debug, PartialEq, Eq)]
+pub enum RefVerdict {
+    Ok {
+        gas: u64,
+        /// Per solution: data-output memories of pass 1 and pass 2 (each a multiset, kept sorted).
+        outputs: Vec<(Vec<Vec<i64>>, Vec<Vec<i64>>)>,
+        /// Per solution: computed mutations (pass 1 then pass 2), as multiset (sorted).
+        computed: Vec<Vec<(Vec<i64>, Vec<i64>)>>,
+    },
+    /// Predicate checking fails in the given pass for these solutions.
+    Failed { pass: u8, per_solution: BTreeMap<usize, SolFail> },
+    /// All programs fine in the given pass but the data outputs do not decode / collide: any of these solutions may be blamed.
+    Mutations { pass: u8, blamed: BTreeSet<usize> },
+    Unspecified(&'static str),
+}
+
+#[derive(Clone, Debug, Default)]
+pub struct RefTrace {
+    /// (solution, node) pairs in the order the reference evaluated them, with the pass.
+    pub evaluated: Vec<(usize, u16, u8)>,
+    /// For statistics.
+    pub post_reads_saw_overlay: bool,
+    pub deferred_nodes: usize,
+    pub deferred_with_lower_numbered_descendant: bool,
+    pub computed_mutations: usize,
+    pub post_reads: usize,
+    pub post_read_saw_declared: bool,
+    pub post_read_saw_computed: bool,
+    pub post_read_saw_deletion: bool,
+    pub post_read_carry: bool,
+    pub post_read_straddles: bool,
+}
+
+pub fn to_msolutions(case: &GraphCase, pred_addr: &[Addr]) -> Vec<MSolution> {
+    case.solutions
+        .iter()
+        .map(|s| MSolution {
+            contract: s.contract,
+            predicate: pred_addr[s.pred],
+            data: s.data.clone(),
+            mutations: s.mutations.clone(),
+        })
+        .collect()
+}
+
+struct NodeOut {
+    stack: Vec<i64>,
+    memory: Vec<i64>,
+}
+
+/// Execute one node program on the real VM from the concatenation of its parents' outputs.
+fn exec_node(
+    prog: &[MOp],
+    inputs: &[&NodeOut],
+    solutions: &Arc<Vec<essential_types::solution::Solution>>,
+    index: usize,
+    views: &RefViews,
+) -> Result<(NodeOut, u64), String> {
+    let mut stack = Vec::new();
+    let mut memory = Vec::new();
+    for i in inputs {
+        stack.extend_from_slice(&i.stack);
+        memory.extend_from_slice(&i.memory);
+    }
+    let stack = Stack::try_from(stack).map_err(|e| format!("parent stacks: {e}"))?;
+    let memory = Memory::try_from(memory).map_err(|e| format!("parent memories: {e}"))?;
+    let mut vm = Vm {
+        stack,
+        memory,
+        ..Default::default()
+    };
+    let ops = crate::real::to_real_ops(prog);
+    let gas = vm
+        .exec_ops(&ops, Access::new(solutions.clone(), index as u16), views, &|_: &essential_asm::Op| 1u64, GasLimit::UNLIMITED)
+        .map_err(|e| format!("{e}"))?;
+    Ok((
+        NodeOut {
+            stack: vm.stack.to_vec(),
+            memory: vm.memory.to_vec(),
+        },
+        gas,
+    ))
+}
+
+struct PassResult {
+    gas: u64,
+    fails: BTreeMap<usize, SolFail>,
+    /// per solution data-output memories
+    outputs: Vec<Vec<Vec<i64>>>,
+}
+
+pub struct RefRun<'a> {
+    pub case: &'a GraphCase,
+    pub pred_addr: Vec<Addr>,
+    pub analyses: Vec<Result<Analysis, usize>>,
+    pub deferred: Vec<Vec<bool>>,
+}
+
+impl<'a> RefRun<'a> {
+    pub fn new(case: &'a GraphCase, pred_addr: Vec<Addr>) -> Self {
+        let analyses: Vec<Result<Analysis, usize>> = case.predicates.iter().map(analyse).collect();
+        let deferred = case
+            .predicates
+            .iter()
+            .zip(&analyses)
+            .map(|(p, a)| match a {
+                Ok(a) => {
+                    let pr: Vec<bool> = p.nodes.iter().map(|n| has_post_read(&case.programs[n.prog])).collect();
+                    deferred_set(a, &pr)
+                }
+                Err(_) => vec![],
+            })
+            .collect();
+        RefRun {
+            case,
+            pred_addr,
+            analyses,
+            deferred,
+        }
+    }
+
+    pub fn evaluate(&self, trace: &mut RefTrace) -> RefVerdict {
+        let case = self.case;
+        // graph validity per solution
+        let mut invalid: BTreeMap<usize, SolFail> = BTreeMap::new();
+        for (si, s) in case.solutions.iter().enumerate() {
+            match &self.analyses[s.pred] {
+                Err(_) => {
+                    invalid.insert(si, SolFail::InvalidGraph);
+                }
+                Ok(a) => {
+                    if a.topo.is_none() {
+                        invalid.insert(si, SolFail::InvalidGraph);
+                    } else if a.dangling {
+                        return RefVerdict::Unspecified("edge target beyond the node list");
+                    }
+                }
+            }
+        }
+        for (pi, d) in self.deferred.iter().enumerate() {
+            if let Ok(a) = &self.analyses[pi] {
+                let n = d.iter().filter(|x| **x).count();
+                trace.deferred_nodes += n;
+                // a deferred node with a descendant numbered below it
+                for (i, is_d) in d.iter().enumerate() {
+                    if *is_d && a.children[i].iter().any(|c| (*c as usize) < i) {
+                        trace.deferred_with_lower_numbered_descendant = true;
+                    }
+                }
+            }
+        }
+        let msols = to_msolutions(case, &self.pred_addr);
+        let mut real_sols = crate::real::to_real_solutions(&msols);
+        let pre = Arc::new(ViewImpl::from_spec(&crate::doubles::ViewSpec::Map(case.pre_state.clone())));
+        // ---- pass 1
+        let views1 = RefViews {
+            pre: RefView::Pre(pre.clone()),
+            post: RefView::Post(pre.clone(), Arc::new(Overlay::new()), Default::default()),
+        };
+        let mut cache: Vec<BTreeMap<u16, NodeOut>> = (0..case.solutions.len()).map(|_| BTreeMap::new()).collect();
+        let p1 = self.run_pass(1, &Arc::new(real_sols.clone()), &views1, &invalid, &mut cache, trace);
+        if !p1.fails.is_empty() {
+            return RefVerdict::Failed {
+                pass: 1,
+                per_solution: p1.fails,
+            };
+        }
+        // ---- mutations computed in pass 1
+        let mut taken: BTreeSet<(Addr, Vec<i64>)> = BTreeSet::new();
+        for s in &case.solutions {
+            for (k, _) in &s.mutations {
+                taken.insert((s.contract, k.clone()));
+            }
+        }
+        let mut computed: Vec<Vec<(Vec<i64>, Vec<i64>)>> = vec![vec![]; case.solutions.len()];
+        let mut blamed = BTreeSet::new();
+        self.absorb_outputs(&p1.outputs, &mut taken, &mut computed, &mut blamed);
+        if !blamed.is_empty() {
+            return RefVerdict::Mutations { pass: 1, blamed };
+        }
+        trace.computed_mutations = computed.iter().map(|c| c.len()).sum();
+        // ---- post state
+        let mut overlay = Overlay::new();
+        for (si, s) in case.solutions.iter().enumerate() {
+            for (k, v) in s.mutations.iter().chain(computed[si].iter()) {
+                overlay.insert((s.contract, k.clone()), v.clone());
+            }
+        }
+        for (si, s) in real_sols.iter_mut().enumerate() {
+            for (k, v) in &computed[si] {
+                s.state_mutations.push(essential_types::solution::Mutation {
+                    key: k.clone(),
+                    value: v.clone(),
+                });
+            }
+        }
+        let read_log: ReadLog = Default::default();
+        let overlay = Arc::new(overlay);
+        let views2 = RefViews {
+            pre: RefView::Pre(pre.clone()),
+            post: RefView::Post(pre.clone(), overlay.clone(), read_log.clone()),
+        };
+        let p2 = self.run_pass(2, &Arc::new(real_sols), &views2, &invalid, &mut cache, trace);
+        // classify what the post-state reads looked at (evidence for C03)
+        for (c, key, n) in read_log.lock().unwrap().iter() {
+            let mut k = key.clone();
+            let (mut hit, mut miss) = (false, false);
+            for _ in 0..(*n).min(64) {
+                match overlay.get(&(*c, k.clone())) {
+                    Some(v) => {
+                        hit = true;
+                        if v.is_empty() {
+                            trace.post_read_saw_deletion = true;
+                        }
+                        let declared = case.solutions.iter().any(|s| s.contract == *c && s.mutations.iter().any(|(dk, _)| *dk == k));
+                        if declared {
+                            trace.post_read_saw_declared = true;
+                        } else {
+                            trace.post_read_saw_computed = true;
+                        }
+                        if pre.read(c, &k, 1).ok().and_then(|mut v| v.pop()).unwrap_or_default() != *v {
+                            trace.post_reads_saw_overlay = true;
+                        }
+                    }
+                    None => miss = true,
+                }
+                if k.last() == Some(&i64::MAX) {
+                    trace.post_read_carry = true;
+                }
+                match next_key(k) {
+                    Some(nk) => k = nk,
+                    None => break,
+                }
+            }
+            if hit && miss {
+                trace.post_read_straddles = true;
+            }
+            trace.post_reads += 1;
+        }
+        if !p2.fails.is_empty() {
+            return RefVerdict::Failed {
+                pass: 2,
+                per_solution: p2.fails,
+            };
+        }
+        let mut computed2 = computed.clone();
+        let mut blamed = BTreeSet::new();
+        self.absorb_outputs(&p2.outputs, &mut taken, &mut computed2, &mut blamed);
+        if !blamed.is_empty() {
+            return RefVerdict::Mutations { pass: 2, blamed };
+        }
+        let mut outputs = Vec::new();
+        for si in 0..case.solutions.len() {
+            let mut a = p1.outputs[si].clone();
+            let mut b = p2.outputs[si].clone();
+            a.sort();
+            b.sort();
+            outputs.push((a, b));
+        }
+        for c in computed2.iter_mut() {
+            c.sort();
+        }
+        RefVerdict::Ok {
+            gas: p1.gas + p2.gas,
+            outputs,
+            computed: computed2,
+        }
+    }
+
+    /// Decode data outputs into mutations; record solutions whose outputs are invalid or collide.
+    fn absorb_outputs(
+        &self,
+        outputs: &[Vec<Vec<i64>>],
+        taken: &mut BTreeSet<(Addr, Vec<i64>)>,
+        computed: &mut [Vec<(Vec<i64>, Vec<i64>)>],
+        blamed: &mut BTreeSet<usize>,
+    ) {
+        // first pass: decode errors
+        let mut decoded: Vec<Vec<(Vec<i64>, Vec<i64>)>> = vec![vec![]; outputs.len()];
+        for (si, mems) in outputs.iter().enumerate() {
+            for m in mems {
+                match codec::decode_mutations_canonical(m) {
+                    Some(ms) => decoded[si].extend(ms),
+                    None => {
+                        blamed.insert(si);
+                    }
+                }
+            }
+        }
+        // collisions: with declared / previously computed slots, or among the new ones
+        let mut seen: BTreeMap<(Addr, Vec<i64>), Vec<usize>> = BTreeMap::new();
+        for (si, ms) in decoded.iter().enumerate() {
+            for (k, _) in ms {
+                seen.entry((self.case.solutions[si].contract, k.clone())).or_default().push(si);
+            }
+        }
+        for (slot, sols) in &seen {
+            if taken.contains(slot) || sols.len() > 1 {
+                blamed.extend(sols.iter().copied());
+            }
+        }
+        if blamed.is_empty() {
+            for (si, ms) in decoded.into_iter().enumerate() {
+                for (k, v) in ms {
+                    taken.insert((self.case.solutions[si].contract, k.clone()));
+                    computed[si].push((k, v));
+                }
+            }
+        }
+    }
+
+    fn run_pass(
+        &self,
+        pass: u8,
+        real_sols: &Arc<Vec<essential_types::solution::Solution>>,
+        views: &RefViews,
+        invalid: &BTreeMap<usize, SolFail>,
+        cache: &mut [BTreeMap<u16, NodeOut>],
+        trace: &mut RefTrace,
+    ) -> PassResult {
+        let case = self.case;
+        let mut res = PassResult {
+            gas: 0,
+            fails: BTreeMap::new(),
+            outputs: vec![vec![]; case.solutions.len()],
+        };
+        for (si, s) in case.solutions.iter().enumerate() {
+            if let Some(f) = invalid.get(&si) {
+                res.fails.insert(si, f.clone());
+                continue;
+            }
+            let a = self.analyses[s.pred].as_ref().unwrap();
+            let pred = &case.predicates[s.pred];
+            let deferred = &self.deferred[s.pred];
+            let mut failed: BTreeSet<u16> = BTreeSet::new();
+            let mut skipped: BTreeSet<u16> = BTreeSet::new();
+            let mut unsat: BTreeSet<u16> = BTreeSet::new();
+            for &x in a.topo.as_ref().unwrap() {
+                let xi = x as usize;
+                let in_this_pass = if pass == 1 { !deferred[xi] } else { deferred[xi] };
+                if !in_this_pass {
+                    continue;
+                }
+                // all parents must have succeeded
+                if a.parents[xi].iter().any(|p| failed.contains(p) || skipped.contains(p)) {
+                    skipped.insert(x);
+                    continue;
+                }
+                let inputs: Vec<&NodeOut> = a.parents[xi].iter().map(|p| cache[si].get(p).expect("parent output present")).collect();
+                trace.evaluated.push((si, x, pass));
+                match exec_node(&case.programs[pred.nodes[xi].prog], &inputs, real_sols, si, views) {
+                    Err(_) => {
+                        failed.insert(x);
+                    }
+                    Ok((out, gas)) => {
+                        res.gas += gas;
+                        if a.leaf[xi] {
+                            match out.stack[..] {
+                                [1] => {}
+                                [2] => res.outputs[si].push(out.memory.clone()),
+                                _ => {
+                                    unsat.insert(x);
+                                }
+                            }
+                        }
+                        cache[si].insert(x, out);
+                    }
+                }
+            }
+            if !failed.is_empty() {
+                res.fails.insert(
+                    si,
+                    SolFail::Programs {
+                        root: failed,
+                        downstream: skipped,
+                    },
+                );
+            } else if !unsat.is_empty() {
+                res.fails.insert(si, SolFail::Unsatisfied(unsat));
+            }
+        }
+        res
+    }
+}
